@@ -29,6 +29,7 @@ def mentions(n, name):
 def run(ctx):
     F = ctx.facts
     r25_5(ctx)
+    r25_6(ctx)
     for rid, t in [('R25.1', 'every forward of a finding passes the exit-code accounting'),
                    ('R25.2', 'all component results flow into the process exit status'),
                    ('R25.3', 'executors accumulate the per-file results'),
@@ -258,3 +259,38 @@ def r25_5(ctx):
         ctx.ob('R25.5', 'reset-exitcode:%s' % f['name'], ok, ('%s resets the accumulator where a file\'s analysis starts' % f['name']) if ok else
                ('%s calls CppCheckLogger::resetExitCode() (line %s): a whole-program finding that was already reported once is dropped as duplicate before the accounting statement, '
                 'so after this reset the run exits 0 although the finding was printed' % (f['name'], c.get('l'))), '%s:%s' % (f['file'], c.get('l')))
+
+
+def r25_6(ctx):
+    """R25.6  the per-file result is the accumulator: a return of CppCheck::checkInternal that follows a call which can report a finding returns
+    mLogger->exitcode(), not a constant.  (The executors add up the per-file results; a literal 0 after a report makes the run exit 0 although a finding was
+    printed, unless another component happens to return the stale accumulator.)"""
+    from .C20 import may_report_set
+    F = ctx.facts
+    ctx.rule('R25.6', 'checkInternal returns the exit-code accumulator on every path that may have reported')
+    ci = F.one('CppCheck::checkInternal')
+    body = F.body(ci)['body']
+    reporters = may_report_set(F)
+    # calls that can emit a finding *of this analysis* directly: anything reaching ErrorLogger::reportErr except pure output helpers
+    def is_reporter(n):
+        if n.get('k') in ('CallExpr', 'CXXMemberCallExpr') and n.get('fid'):
+            fn = n.get('fn') or ''
+            if fn.endswith('::reportOut') or fn.startswith(('std::', 'Path::', 'Settings::', 'Timer')):
+                return False
+            for g in F.resolve(ci, n['fid'], n.get('virt', False)):
+                if F.key(g) in reporters:
+                    return True
+        return False
+    m = paths.Must(kill=lambda n: ('no-report-yet',) if is_reporter(n) else (), observe=lambda n: n.get('k') == 'ReturnStmt', lambda_inline=True)
+    m.stmt(body, frozenset({'no-report-yet'}))
+    rets = sorted(((m.res.at_node[i], st) for i, st in m.res.at.items()), key=lambda t: t[0]['l'])
+    ctx.floor('R25.6 return statements of checkInternal', len(rets), 6)
+    for i, (n, st) in enumerate(rets):
+        uses_acc = any(y.get('k') == 'CXXMemberCallExpr' and (y.get('fn') or '').endswith('CppCheckLogger::exitcode') for y in walk(n))
+        if uses_acc:
+            ctx.ob('R25.6', 'return#%d' % i, True, 'the return at line %s yields mLogger->exitcode()' % n['l'], '%s:%s' % (ci['file'], n['l']))
+            continue
+        ok = 'no-report-yet' in st
+        ctx.ob('R25.6', 'return#%d' % i, ok, ('the constant returned at line %s is reached only before anything can have been reported' % n['l']) if ok else
+               ('CppCheck::checkInternal returns a constant at line %s on a path that has called a function which can report a finding: the finding is printed but this '
+                'file contributes 0 to the exit status' % n['l']), '%s:%s' % (ci['file'], n['l']))
